@@ -13,9 +13,10 @@ using ioc::Flat; using ioc::Emit;
 // cost: 0 = no compression (GIL's own strip / tile code, full product), 1 = cheap codec, 2 = codec whose context set-up
 // costs ~10 ms per image (LZMA, ZSTD): reduced organisation / destination product (bounds slow_orgs, slow_dests,
 // slow_contents) -- the codec runs below GIL's layer, so organisation and destination are independent of it.
-struct TiffVariant { const char* name; bool tiled; int compression; bool bilevel_only; int cost; };
+struct TiffVariant { const char* name; bool tiled; int compression; bool bilevel_only; int cost; int tw = 16, th = 16; };
 static const TiffVariant VARIANTS[] = {
     {"strip-none", false, COMPRESSION_NONE, false, 0},    {"tile16-none", true, COMPRESSION_NONE, false, 0},
+    {"tile32x16-none", true, COMPRESSION_NONE, false, 0, 32, 16}, {"tile16x32-none", true, COMPRESSION_NONE, false, 0, 16, 32},
     {"strip-lzw", false, COMPRESSION_LZW, false, 1},         {"tile16-lzw", true, COMPRESSION_LZW, false, 1},
     {"strip-packbits", false, COMPRESSION_PACKBITS, false, 1}, {"tile16-packbits", true, COMPRESSION_PACKBITS, false, 1},
     {"strip-adobe-deflate", false, COMPRESSION_ADOBE_DEFLATE, false, 1}, {"tile16-adobe-deflate", true, COMPRESSION_ADOBE_DEFLATE, false, 1},
@@ -42,7 +43,7 @@ struct Fmt
     {
         gil::image_write_info<tag> i;
         i._compression = VARIANTS[v].compression;
-        if (VARIANTS[v].tiled) { i._is_tiled = true; i._tile_width = 16; i._tile_length = 16; }
+        if (VARIANTS[v].tiled) { i._is_tiled = true; i._tile_width = VARIANTS[v].tw; i._tile_length = VARIANTS[v].th; }
         return i;
     }
     static bool dest_supported(int) { return true; }
